@@ -102,6 +102,13 @@ impl Flusher {
                 events,
             )
             .await?;
+            #[cfg(feature = "verif")]
+            crate::verif::gate(
+                "flush.type_written",
+                crate::verif::shard_of(&segment_dir),
+                segment_id,
+            )
+            .await;
         }
 
         // Only append SegmentIndex entry if at least one event type had non-empty events
@@ -120,6 +127,13 @@ impl Flusher {
             }
             .add_segment_entry(None)
             .await?;
+            #[cfg(feature = "verif")]
+            crate::verif::gate(
+                "flush.index_saved",
+                crate::verif::shard_of(&segment_dir),
+                segment_id,
+            )
+            .await;
         } else {
             // No files were written, clean up empty directory
             // Use async I/O for directory removal
